@@ -27,7 +27,7 @@ import (
 
 // Tamper is one middlebox operator applied to the wire bytes W of the target burst.
 type Tamper struct {
-	Op   string `json:"op"`             // none|flip|trunc|delframe|dupframe|swapframes|permute|insframe|replayold|splice|delbytes|insbytes|setlen|append
+	Op   string `json:"op"`             // none|flip|trunc|delframe|dupframe|swapframes|permute|insframe|replayold|splice|delbytes|insbytes|setlen|append|peerpkt
 	A    int    `json:"a,omitempty"`    // flip: bit index; trunc/delbytes/insbytes: offset; frame ops: frame index
 	B    int    `json:"b,omitempty"`    // delbytes/insbytes/insframe: length; swapframes: second index
 	Seed uint64 `json:"seed,omitempty"` // random filler
@@ -44,6 +44,7 @@ type Case struct {
 	T       Tamper         `json:"tamper"`
 	Chunk   o4pair.Chunker `json:"chunk"`
 	ReadSz  []int          `json:"read_sz"`
+	Persist int            `json:"persist,omitempty"` // the caller keeps calling Read after the first error: so many more error-returning Reads
 }
 
 type verdict struct {
@@ -429,6 +430,17 @@ func (x *runner) runCase(c Case, o *Outcome) {
 	c.T = resolveTamper(c.T, len(w), len(frames))
 	o.Resolved = c.T
 	tw := applyTamper(c.T, w, frames, oldWire[c.Dir], oldWire[1-c.Dir])
+	if c.T.Op == "peerpkt" {
+		// not an on-path attacker but the peer itself (it holds the link keys): a correctly
+		// sealed frame with a malformed / unusual packet in place of the burst's first frame,
+		// followed by the honest burst (whose nonces are then one behind)
+		evil, err := o4pair.ForgeFrame(pr.Keys[c.Dir], len(sh.Frames)-len(frames), peerPacket(c.T))
+		if err != nil {
+			o.V = &verdict{"tie-forge-failed", err.Error()}
+			return
+		}
+		tw = append(evil, w...)
+	}
 	// first difference and the frame it falls into
 	fd := 0
 	for fd < len(w) && fd < len(tw) && w[fd] == tw[fd] {
@@ -504,6 +516,52 @@ func (x *runner) runCase(c Case, o *Outcome) {
 		return
 	}
 	o.TieOK += model.Points()
+	// a caller that keeps reading after the error must still never get anything but a prefix,
+	// and nothing from the damaged frame on
+	for k := 0; k < c.Persist && tampered; k++ {
+		rd.Resume()
+		rd.Drain(next)
+		switch {
+		case rd.Panic != nil:
+			o.V = &verdict{"panic-in-read", fmt.Sprintf("%s: Read #%d after the error panicked (%s): %v", dn, k+1, c.T.Op, rd.Panic)}
+		case !bytes.HasPrefix(want, rd.Got):
+			o.V = &verdict{"delivered-not-a-prefix-after-error", fmt.Sprintf("%s: caller kept reading after the error (%s, damaged frame %d): delivered %d bytes that are not a prefix of the %d written", dn, c.T.Op, dmg, len(rd.Got), len(want))}
+		case len(rd.Got) > allowed:
+			o.V = &verdict{"delivered-past-damaged-frame-after-error", fmt.Sprintf("%s: caller kept reading after the error (%s): damaged frame #%d, intact data before it %d bytes, delivered %d", dn, c.T.Op, dmg, allowed, len(rd.Got))}
+		case rd.Err == nil:
+			o.V = &verdict{"no-error-reported", fmt.Sprintf("%s: Read #%d after the error (%s) blocked or returned no error although EOF was fed", dn, k+1, c.T.Op)}
+		}
+		if o.V != nil {
+			return
+		}
+	}
+	o.Stats["persist-reads"] = c.Persist
+}
+
+// peerPacket builds the packet plaintext of tamper op "peerpkt": A selects the shape.
+func peerPacket(t Tamper) []byte {
+	rng := vlib.NewRng(t.Seed ^ 0xE1)
+	body := rng.Bytes(40)
+	switch t.A % 9 {
+	case 0:
+		return nil // decLen 0 < packetOverhead
+	case 1:
+		return []byte{0} // decLen 1
+	case 2:
+		return []byte{0, 0} // decLen 2
+	case 3:
+		return append([]byte{0, 0, 41}, body...) // payload length one beyond the packet
+	case 4:
+		return append([]byte{0, 0xff, 0xff}, body...) // payload length 65535
+	case 5:
+		return append([]byte{0, 0x05, 0x97}, body...) // 1431 > any packet, within the decode buffer's capacity
+	case 6:
+		return append([]byte{7, 0, 40}, body...) // unknown packet type carrying 40 bytes: ignored
+	case 7:
+		return append([]byte{1, 0, 24}, body[:24]...) // PRNG seed packet (adopted by a client, ignored by a server)
+	default:
+		return append([]byte{1, 0, 23}, body[:23]...) // seed packet of the wrong length: ignored
+	}
 }
 
 func frameEnds(fs []o4pair.Frame) []int {
@@ -580,8 +638,14 @@ func genRandom(rng *vlib.Rng, i int) Case {
 	}
 	// the wire length is not known before the run: offsets are drawn large and reduced modulo
 	// the actual length by the "auto" resolution in resolveTamper (recorded in the outcome)
-	ops := []string{"flip", "trunc", "delframe", "dupframe", "swapframes", "insframe", "replayold", "splice", "delbytes", "insbytes", "setlen", "append", "permute"}
+	ops := []string{"flip", "trunc", "delframe", "dupframe", "swapframes", "insframe", "replayold", "splice", "delbytes", "insbytes", "setlen", "append", "permute", "peerpkt"}
 	c.T = Tamper{Op: vlib.Pick(rng, ops), A: -1, B: rng.Range(1, 40), Seed: rng.U64()}
+	if c.T.Op == "peerpkt" {
+		c.T.A = rng.Intn(9)
+	}
+	if rng.Intn(3) == 0 {
+		c.Persist = rng.Range(1, 3)
+	}
 	c.Chunk = pickChunker(rng)
 	c.ReadSz = pickReads(rng)
 	return c
@@ -836,22 +900,23 @@ func main() {
 	}
 	// (3) whole-frame operations on 4-data-frame bursts: delete / duplicate / swap / permute /
 	//     insert / replay / splice at every frame position, all chunkers
-	for fi := 0; fi < r.Scale(2, 8); fi++ {
+	for fi := 0; fi < r.Scale(4, 16); fi++ {
 		base := fixedBase(rng.Fork(), fmt.Sprintf("frames-%d", fi), fi%2, []int{1427, 1427, 1427, 100})
 		base.Warm = [][]int{{50}, {1427}}
 		base.WarmOth = []int{700}
 		var cs []Case
 		add := func(t Tamper) {
 			for _, ch := range allChunkers {
-				if !r.Thorough() && len(cs)%3 != fi%3 && ch.Kind != "whole" {
-					continue
-				}
 				c := base
 				c.Name = fmt.Sprintf("%s-%s-%d-%d-%s", base.Name, t.Op, t.A, t.B, ch.String())
 				c.T, c.Chunk = t, ch
 				c.ReadSz = []int{readClasses[len(cs)%len(readClasses)]}
+				c.Persist = len(cs) % 3
 				cs = append(cs, c)
 			}
+		}
+		for k := 0; k < 9; k++ {
+			add(Tamper{Op: "peerpkt", A: k, Seed: rng.U64()})
 		}
 		for i := 0; i < 5; i++ {
 			add(Tamper{Op: "delframe", A: i})
@@ -891,7 +956,7 @@ func main() {
 	}
 	// (4) random tampers: all operators, IAT modes, both victims, warm-up traffic
 	{
-		n := r.Scale(1500, 20000)
+		n := r.Scale(5000, 60000)
 		cs := make([]Case, n)
 		for i := range cs {
 			cs[i] = genRandom(rng.Fork(), i)
